@@ -12,6 +12,8 @@ import os
 import sys
 import traceback
 
+from . import covprobe
+
 
 def _setup():
     from sim import bridge
@@ -155,6 +157,7 @@ def run_job(job):
 
 
 def main():
+    covprobe.start()
     _setup()
     sys.stdout.write(json.dumps({'ready': True, 'hashseed': os.environ.get('PYTHONHASHSEED')}) + '\n')
     sys.stdout.flush()
@@ -168,6 +171,8 @@ def main():
                 import faulthandler
                 faulthandler.dump_traceback_later(job.get('timeout', 240), exit=True)
                 res = run_job(job)
+                if covprobe.ON and isinstance(res, dict):
+                    res['_cov'] = covprobe.take()
             except BaseException as e:
                 res = {'error': type(e).__name__, 'message': str(e)[:300], 'trace': traceback.format_exc()[-1200:]}
             data = json.dumps(res).encode()
